@@ -1382,28 +1382,22 @@ theorem reset_spec (w : World) (q : Cq) :
 
 /-- a step that may create temp files and append to them -/
 def TStep (w : World) (q : Cq) (w' : World) (q' : Cq) : Prop :=
-  Fresh w → Fresh w' ∧ Grows w w' ∧ (QV w q → QV w' q')
+  Fresh w → QV w q → Fresh w' ∧ Grows w w' ∧ QV w' q'
 
-theorem TStep.refl (w : World) (q : Cq) : TStep w q w q := fun hf => ⟨hf, Grows.refl w, id⟩
+theorem TStep.refl (w : World) (q : Cq) : TStep w q w q := fun hf hq => ⟨hf, Grows.refl w, hq⟩
 
 theorem TStep.trans {w w1 w2 : World} {q q1 q2 : Cq} (h1 : TStep w q w1 q1) (h2 : TStep w1 q1 w2 q2) :
     TStep w q w2 q2 := by
-  intro hf
-  obtain ⟨f1, g1, q1'⟩ := h1 hf
-  obtain ⟨f2, g2, q2'⟩ := h2 f1
-  exact ⟨f2, g1.trans g2, fun hq => q2' (q1' hq)⟩
+  intro hf hq
+  obtain ⟨f1, g1, q1'⟩ := h1 hf hq
+  obtain ⟨f2, g2, q2'⟩ := h2 f1 q1'
+  exact ⟨f2, g1.trans g2, q2'⟩
 
 theorem QStep.tstep {w : World} {q : Cq} {w' : World} {q' : Cq} (h : QStep w q (w', q')) : TStep w q w' q' :=
-  fun hf => ⟨h.1.fresh hf, h.1.grows, h.2⟩
+  fun hf hq => ⟨h.1.fresh hf, h.1.grows, h.2 hq⟩
 
 theorem TStep.of_same {w : World} {q : Cq} {w' : World} (h : SameFiles w w') : TStep w q w' q :=
-  fun hf => ⟨h.fresh hf, h.grows, fun hq => hq.mono h.grows⟩
-
-theorem sz_setFile_same (w : World) (fid : Nat) (f : File) : sz (w.setFile fid f) fid = f.content.length := by
-  simp [sz]
-
-theorem sz_setFile_other (w : World) {fid i : Nat} (f : File) (h : i ≠ fid) : sz (w.setFile fid f) i = sz w i := by
-  simp [sz, setFile_files_other w f h]
+  fun hf hq => ⟨h.fresh hf, h.grows, hq.mono h.grows⟩
 
 theorem sz_addFile (w : World) (f : File) (i : Nat) :
     sz (w.addFile f) i = if i = w.nfiles then f.content.length else sz w i := by
@@ -1425,8 +1419,6 @@ theorem createTemp_spec (w : World) (dir : Nat) (hf : Fresh w) :
     · rename_i h; subst h; rw [hf _ (Nat.le_refl _)]; exact Nat.zero_le _
     · exact Nat.le_refl _
   · rw [sz_addFile]; simp
-
-theorem popM_fresh {w : World} (hf : Fresh w) : Fresh (popM w).1 := (popM_same w).fresh hf
 
 theorem mkstempDirs_spec (fuel : Nat) (w : World) (idx : Nat) (hf : Fresh w) :
     Fresh (mkstempDirs fuel w idx).1 ∧ Grows w (mkstempDirs fuel w idx).1 ∧
@@ -1460,7 +1452,7 @@ theorem pushNewTemp_qv {w : World} {q : Cq} {fid idx : Nat} (hq : QV w q) (h1 : 
 
 theorem newTempfile_spec {w : World} {q : Cq} {w' : World} {q' : Cq} {ok : Bool}
     (h : newTempfile w q = (w', q', ok)) : TStep w q w' q' := by
-  intro hf
+  intro hf hq
   unfold newTempfile at h
   split at h
   · have hm := mkstempDirs_spec (w.ndirs - q.tdIdx + 1) w q.tdIdx hf
@@ -1471,13 +1463,13 @@ theorem newTempfile_spec {w : World} {q : Cq} {w' : World} {q' : Cq} {ok : Bool}
       obtain ⟨c1, c2⟩ := c fid rfl
       simp only [Prod.mk.injEq] at h
       obtain ⟨rfl, rfl, rfl⟩ := h
-      exact ⟨a, b, fun hq => pushNewTemp_qv (hq.mono b) c1⟩
+      exact ⟨a, b, pushNewTemp_qv (hq.mono b) c1⟩
     · rename_i w1 idx heq
       rw [heq] at hm
       obtain ⟨a, b, _⟩ := hm
       simp only [Prod.mk.injEq] at h
       obtain ⟨rfl, rfl, rfl⟩ := h
-      exact ⟨a, b, fun hq => ⟨(hq.mono b).valid, hq.len⟩⟩
+      exact ⟨a, b, ⟨(hq.mono b).valid, hq.len⟩⟩
   · have hp := popM_same w
     split at h
     rename_i w1 fails hpm
@@ -1485,14 +1477,14 @@ theorem newTempfile_spec {w : World} {q : Cq} {w' : World} {q' : Cq} {ok : Bool}
     split at h
     · simp only [Prod.mk.injEq] at h
       obtain ⟨rfl, rfl, rfl⟩ := h
-      exact ⟨hp.fresh hf, hp.grows, fun hq => hq.mono hp.grows⟩
+      exact ⟨hp.fresh hf, hp.grows, hq.mono hp.grows⟩
     · obtain ⟨a, b, c, d⟩ := createTemp_spec w1 0 (hp.fresh hf)
       split at h
       rename_i w2 fid hct
       rw [hct] at a b c d
       simp only [Prod.mk.injEq] at h
       obtain ⟨rfl, rfl, rfl⟩ := h
-      exact ⟨a, hp.grows.trans b, fun hq => pushNewTemp_qv (idx := q.tdIdx) (hq.mono (hp.grows.trans b)) c⟩
+      exact ⟨a, hp.grows.trans b, pushNewTemp_qv (idx := q.tdIdx) (hq.mono (hp.grows.trans b)) c⟩
 
 theorem setLast_fd_qv {w : World} {q : Cq} {fid off len : Nat} {t : Bool} {fd fd' : Fd} (hq : QV w q)
     (hl : q.chunks.getLast? = some (.file fid off len t fd)) :
@@ -1504,6 +1496,12 @@ theorem setLast_fd_qv {w : World} {q : Cq} {fid off len : Nat} {t : Bool} {fd fd
   simp only [remSum_setLast, Chunk.rem] at *
   omega
 
+theorem closeLast_tstep {w : World} {q : Cq} {fid off len : Nat} {t : Bool} {fd : Fd}
+    (hl : q.chunks.getLast? = some (.file fid off len t fd)) :
+    TStep w q (w.closeFd fid) { q with chunks := setLast q.chunks (.file fid off len t .none) } :=
+  fun hf hq => ⟨(closeFd_same w fid).fresh hf, (closeFd_same w fid).grows,
+    (setLast_fd_qv hq hl).mono (closeFd_same w fid).grows⟩
+
 theorem getAppendTempfile_spec {w : World} {q : Cq} {w' : World} {q' : Cq} {ok : Bool}
     (h : getAppendTempfile w q = (w', q', ok)) : TStep w q w' q' := by
   unfold getAppendTempfile at h
@@ -1514,10 +1512,7 @@ theorem getAppendTempfile_spec {w : World} {q : Cq} {w' : World} {q' : Cq} {ok :
       · simp only [Prod.mk.injEq] at h
         obtain ⟨rfl, rfl, rfl⟩ := h
         exact TStep.refl _ _
-      · have h1 : TStep w q (w.closeFd fid) { q with chunks := setLast q.chunks (.file fid off len true .none) } :=
-          fun hf => ⟨(closeFd_same w fid).fresh hf, (closeFd_same w fid).grows,
-            fun hq => (setLast_fd_qv hq hl).mono (closeFd_same w fid).grows⟩
-        exact h1.trans (newTempfile_spec h)
+      · exact (closeLast_tstep hl).trans (newTempfile_spec h)
     · exact newTempfile_spec h
   · exact newTempfile_spec h
 
@@ -1533,13 +1528,14 @@ theorem dropOrCloseLast_spec (w : World) (q : Cq) : QStep w q (dropOrCloseLast w
   · rename_i c hl
     split
     · exact removeEmpty_spec w q
-    · split
-      · rename_i fid off len t fd
+    · cases c with
+      | mem d off cap => exact QStep.mk' (SameFiles.refl w) id
+      | file fid off len t fd =>
+        dsimp only
         split
         · exact QStep.mk' (closeFd_same w fid) fun hq =>
             (setLast_fd_qv hq hl).mono (closeFd_same w fid).grows
         · exact QStep.mk' (SameFiles.refl w) id
-      · exact QStep.mk' (SameFiles.refl w) id
   · exact QStep.mk' (SameFiles.refl w) id
 
 theorem tempfileErr_spec {w : World} {q : Cq} {e : Bool} {w' : World} {q' : Cq} {r : Bool}
@@ -1557,7 +1553,7 @@ theorem tempfileErr_spec {w : World} {q : Cq} {e : Bool} {w' : World} {q' : Cq} 
 
 theorem writeAt_length (c : Bytes) (pos : Nat) (d : Bytes) :
     (writeAt c pos d).length = min pos c.length + d.length + (c.length - (pos + d.length)) := by
-  simp [writeAt, List.length_take, List.length_drop]
+  simp only [writeAt, List.length_append, List.length_take, List.length_drop]
 
 theorem sz_pwrite_same (w : World) (fid pos : Nat) (d : Bytes) :
     sz (w.pwrite fid pos d) fid = (writeAt (w.files fid).content pos d).length := by
@@ -1587,32 +1583,25 @@ theorem pwrite_fresh {w : World} {fid : Nat} (pos : Nat) (d : Bytes) (hf : Fresh
     and the chunk grows by the same amount -/
 theorem writeGrow_spec (w : World) (q : Cq) (d : Bytes) :
     TStep w q (writeLast w q d) (growLast q d.length) := by
-  intro hf
+  intro hf hq
   unfold writeLast growLast
   split
   · rename_i fid off len t fd hl
-    by_cases hq : QV w q
-    · have hv := valid_last hq.valid hl
-      simp only [Chunk.Valid] at hv
-      have hg := pwrite_grows w fid len d
-      refine ⟨pwrite_fresh len d hf hv.1, hg, fun _ => ?_⟩
-      have hr := remSum_last hl
-      have hlen := hq.len
-      refine ⟨valid_setLast (hq.valid.mono hg) ?_, ?_⟩
-      · simp only [Chunk.Valid]
-        refine ⟨hv.1, by omega, ?_⟩
-        rw [sz_pwrite_same, writeAt_length]
-        have := hv.2.2
-        simp only [sz] at this
-        omega
-      · simp only [remSum_setLast, Chunk.rem] at *
-        omega
-    · -- without the invariant nothing is claimed about the queue; the world still only grows
-      have hg := pwrite_grows w fid len d
-      by_cases hlt : fid < w.nfiles
-      · exact ⟨pwrite_fresh len d hf hlt, hg, fun h => absurd h hq⟩
-      · refine ⟨?_, hg, fun h => absurd h hq⟩
-        sorry
-  · exact ⟨hf, Grows.refl w, id⟩
+    have hv := valid_last hq.valid hl
+    simp only [Chunk.Valid] at hv
+    have hg := pwrite_grows w fid len d
+    refine ⟨pwrite_fresh len d hf hv.1, hg, ?_⟩
+    have hr := remSum_last hl
+    have hlen := hq.len
+    refine ⟨valid_setLast (hq.valid.mono hg) ?_, ?_⟩
+    · simp only [Chunk.Valid]
+      refine ⟨hv.1, by omega, ?_⟩
+      rw [sz_pwrite_same, writeAt_length]
+      have := hv.2.2
+      simp only [sz] at this
+      omega
+    · simp only [remSum_setLast, Chunk.rem] at *
+      omega
+  · exact ⟨hf, Grows.refl w, hq⟩
 
 end LtVerif.Cq
